@@ -37,6 +37,10 @@ EV_SUB = "SubGraphNode(P:event.uid,P:event.event_type,P:event.start_uid," \
 EV_ANY = f"phi({EV_NODE}|{EV_SUB})"
 IS_LOOP = ("truth", "isinstance(P:event,LoopEvent)", "1")
 
+_UNDECIDED = ("any", (("truth", "P:self.loop_kill_paths[USub(1)]", "1"),
+                      ("truth", "P:self.will_merge", "0")), "1")
+_HAS_PATH = ("cmp", "P:self.current_path", "Is", "None", "0")
+
 TABLE: dict[str, list[tuple]] = {
     # ---- Event -> Node: identity, type, loop references, merge flag
     "create_node_from_event": [
@@ -120,6 +124,39 @@ TABLE: dict[str, list[tuple]] = {
     # ---- merge validation: XOR merges anywhere; an AND / OR block merges
     # ---- at a node only if one of its predecessor sets contains the event
     # ---- types of ALL arriving paths, with multiplicities
+    # ---- a path arrives at a potential merge node
+    "LogicBlockHolder.handle_path_merge": [
+        ("once the block has decided to merge, every further non-kill path "
+         "merges without being validated again (with one path fewer the "
+         "validation would fail)", "ret", "", "", ("True",),
+         [("truth", "P:self.will_merge", "1"),
+          ("truth", "P:self.loop_kill_paths[USub(1)]", "0")], [], ""),
+        ("the arriving path records the node it waits at", "store", "",
+         "P:self.merge_nodes[USub(1)]", ("P:potential_merge_node",),
+         [_UNDECIDED, _HAS_PATH], [], ""),
+        ("the block decides to merge exactly when no kill path is left, all "
+         "paths wait at one node and the merge is valid there", "store", "",
+         "P:self.will_merge",
+         ("P:self._check_merge_is_correct(P:potential_merge_node)",),
+         [_UNDECIDED, _HAS_PATH,
+          ("truth", "P:self.loop_kill_paths[USub(1)]", "0"),
+          ("truth", "any(P:self.loop_kill_paths)", "0"),
+          ("cmp", "1", "Eq", "len(set(P:self.merge_nodes))", "1")], [], ""),
+        ("and answers with that decision", "ret", "", "",
+         ("P:self.will_merge",),
+         [_UNDECIDED, _HAS_PATH,
+          ("truth", "P:self.loop_kill_paths[USub(1)]", "0"),
+          ("truth", "any(P:self.loop_kill_paths)", "0"),
+          ("cmp", "1", "Eq", "len(set(P:self.merge_nodes))", "1")], [], ""),
+        ("a kill path never merges the block", "ret", "", "", ("False",),
+         [_UNDECIDED, _HAS_PATH,
+          ("truth", "P:self.loop_kill_paths[USub(1)]", "1")], [], ""),
+        ("nor does any path while a kill path is still open", "ret", "", "",
+         ("False",),
+         [_UNDECIDED, _HAS_PATH,
+          ("truth", "P:self.loop_kill_paths[USub(1)]", "0"),
+          ("truth", "any(P:self.loop_kill_paths)", "1")], [], ""),
+    ],
     "LogicBlockHolder._check_merge_is_correct": [
         ("XOR blocks merge wherever their paths meet", "ret", "", "",
          ("True",), [XOR], [], ""),
